@@ -83,6 +83,8 @@ type Lemma struct {
 	Requires []*Clause
 	Ensures  []*Clause
 	Arith    string
+	Induct   string // induction variable ("" = none)
+	From     int64  // base: for n <= From the lemma is proved without hypothesis
 	File     string
 	Line     int
 }
@@ -273,6 +275,18 @@ func (cs *ContractSet) loadContractFile(path, defaultPkg string) error {
 				lastClause = &curLemma.Ensures[len(curLemma.Ensures)-1]
 			case "arith":
 				curLemma.Arith = rest
+			case "induct":
+				// induct <var> from <base>
+				f := strings.Fields(rest)
+				if len(f) != 3 || f[1] != "from" {
+					return fmt.Errorf("%s:%d: expected `induct <var> from <int>`", path, ln)
+				}
+				b, err := strconv.ParseInt(f[2], 10, 64)
+				if err != nil {
+					return fmt.Errorf("%s:%d: bad induction base", path, ln)
+				}
+				curLemma.Induct, curLemma.From = f[0], b
+				lastClause = nil
 			default:
 				if lastClause == nil {
 					return fmt.Errorf("%s:%d: stray line %q", path, ln, body)
